@@ -232,6 +232,7 @@ class Interp:
         self.stack = []
         self.unit_checks = []
         self.lost = []           # statements that are calls made for their effect and that the interpretation could not model
+        self.axis_len = {}       # axis label -> length, where the configuration being analysed fixes it (set by hooks)
         self.assume = []         # (condition, truth): data-dependent conditions decided by the caller (one run per case; the caller merges the results)
         self.forked = []         # conditions of the data-dependent ifs that were executed on both arms
         self.conds = []          # conditions of the data-dependent branches being executed (a side effect recorded by a hook happens under their product)
@@ -1297,6 +1298,7 @@ class Interp:
             return a
         if isinstance(b, Unk):
             return b
+        a, b = _align_primed(a, b)
         if isinstance(op, (ast.BitAnd, ast.BitOr)):
             d = bdims(a.dims, b.dims)
             p = alg.b_and(a.poly, b.poly) if isinstance(op, ast.BitAnd) else alg.b_or(a.poly, b.poly)
@@ -1362,6 +1364,8 @@ class Interp:
             return Arr((), alg.sym('idx:' + str(v.label), v.label))
         if isinstance(v, Unk):
             return v
+        if isinstance(v, (list, tuple)) and len(v) == 1:
+            return self._list_to_arr(v)
         return Unk('not an array value: %r' % (v,))
 
     def compare(self, e, env, mod):
@@ -1440,6 +1444,7 @@ class Interp:
         if isinstance(b, Unk):
             return b
         self._unit_kind_check(a, b, e, mod, 'comparison')
+        a, b = _align_primed(a, b)
         d = bdims(a.dims, b.dims)
         mk = _merge_mask(a, b)
         if isinstance(mk, Unk):
@@ -1671,6 +1676,31 @@ class Interp:
                     raise LabelClash('gather index over %s paired with arange(%s) on array axes %s in %s' % (a1.dims, ar, v.dims, up(e)))
                 dims = [dd for k, dd in enumerate(v.dims) if k != k1]
                 return Arr(dims, alg.mk_fn('at', B(v.dims[k1], v.poly), P(a1.poly)), v.mask, v.unit)
+        if len(arrs) >= 2:
+            # several index arrays are paired element by element (numpy broadcasts them against each other), not combined as an outer product
+            ks_ = [k for k, _ in arrs]
+            if len({a.dims for _, a in arrs}) != 1 or ks_ != list(range(ks_[0], ks_[0] + len(ks_))) or v.mask is not None or \
+                    not all(isinstance(x, (ast.Slice, _SliceVal)) and _full_slice(x, idx[i_]) or i_ in ks_ for i_, x in enumerate(vals)) or ks_[-1] >= v.ndim:
+                return Unk('index arrays paired element by element in %s' % up(e)[:60], e)
+            shared_ = arrs[0][1].dims[0]
+            poly_ = v.poly
+            todo_ = []
+            for k, a_ in arrs:
+                lab_ = v.dims[k]
+                if lab_ is None:
+                    return Unk('index array on an unlabelled axis', e)
+                if lab_ == shared_:
+                    if a_.poly == Poly.atom(('fn', 'arange', ('L', lab_))):
+                        continue                   # x[..., arange(n), ...] paired with indices over n: element n of that axis, which is what the label already says
+                    # the axis being gathered has the same label as the index arrays: gather it through a temporary name
+                    t_ = lab_ + '#g'
+                    poly_ = alg.relabel(poly_, lab_, t_)
+                    lab_ = t_
+                todo_.append((lab_, a_))
+            for lab_, a_ in todo_:
+                poly_ = alg.mk_fn('at', B(lab_, poly_), P(a_.poly))
+            dims_ = [d_ for i_, d_ in enumerate(v.dims) if i_ < ks_[0]] + [shared_] + [d_ for i_, d_ in enumerate(v.dims) if i_ > ks_[-1]]
+            return Arr(tuple(dims_), poly_, None, v.unit)
         dims, ax, mask, poly = [], 0, v.mask, v.poly
         for k, ix in enumerate(idx):
             w = vals[k]
@@ -2066,6 +2096,12 @@ class Interp:
                         dims_ = list(a_.dims)
                         dims_[k_] = ix_.dims[0]
                         return Arr(dims_, alg.mk_fn('at', B(lab_, a_.poly), P(ix_.poly)), unit=a_.unit)
+                    if lab_ is not None and ix_.dims[0] is not None and (ix_.dims[0] + "'") not in a_.dims:
+                        # the index runs over an axis the array also has: the result has both (outer product); the index's copy is primed, as for interp1d
+                        d2_ = ix_.dims[0] + "'"
+                        dims_ = list(a_.dims)
+                        dims_[k_] = d2_
+                        return Arr(dims_, alg.mk_fn('at', B(lab_, a_.poly), P(alg.relabel(ix_.poly, ix_.dims[0], d2_))), unit=a_.unit)
                 return Unk('np.take', e)
             if last == 'take_along_axis' and len(args) >= 2:
                 # out[i, 0, ...] = a[i, idx[i, 0], ...] for an index array with a length-1 axis in place of ``axis``
@@ -2079,6 +2115,8 @@ class Interp:
                         dims_[k_] = None
                         return Arr(dims_, alg.mk_fn('at', B(lab_, a_.poly), P(ix_.poly)), unit=a_.unit)
                 return Unk('np.take_along_axis', e)
+            if last in ('diagonal', 'transpose', 'swapaxes') and args and isinstance(self._as_arr(args[0]), Arr):
+                return self.method(self._as_arr(args[0]), last, list(args[1:]), kw, e, mod)           # np.f(x, ...) is x.f(...)
             if last == 'clip':
                 x, lo, hi = [self._as_arr(v) for v in (args[0], kw.get('a_min', args[1] if len(args) > 1 else None), kw.get('a_max', args[2] if len(args) > 2 else None))]
                 if any(isinstance(v, Unk) for v in (x, lo, hi)):
@@ -2099,7 +2137,7 @@ class Interp:
                     return Unk('np.interp arguments', e)
                 extra = []
                 for kname in ('left', 'right'):
-                    if kname in kw:
+                    if kname in kw and kw[kname] is not None:
                         kv = self._as_arr(kw[kname])
                         if isinstance(kv, Unk):
                             return kv
@@ -2139,6 +2177,18 @@ class Interp:
                 if isinstance(x, Arr) and x.mask is None and isinstance(k, Arr) and k.ndim == 0 and _len_label(k.poly):
                     return _Repeat(x, _len_label(k.poly))
                 return Unk('np.repeat', e)
+            if last == 'repeat' and len(args) >= 2 and isinstance(kw.get('axis', args[2] if len(args) > 2 else None), int):
+                # np.repeat(x, k, axis=ax) along an axis of length one: out[..., j, ...] == x[..., 0, ...] for the k positions j
+                x, k = self._as_arr(args[0]), self._as_arr(args[1])
+                ax_ = kw.get('axis', args[2] if len(args) > 2 else None)
+                if isinstance(x, Arr) and x.mask is None and isinstance(k, Arr) and k.ndim == 0 and _len_label(k.poly) and -x.ndim <= ax_ < x.ndim:
+                    ax_ %= x.ndim
+                    lab_, new_ = x.dims[ax_], _len_label(k.poly)
+                    if new_ not in x.dims and (lab_ is None or self.axis_len.get(lab_) == 1):
+                        d_ = list(x.dims)
+                        d_[ax_] = new_
+                        return x.with_(dims=tuple(d_), poly=x.poly if lab_ is None else alg.mk_fn('at', B(lab_, x.poly), P(Poly())))
+                return Unk('np.repeat along an axis whose length is not known to be one', e)
             if last == 'repeat':
                 return Unk('np.repeat', e)
             if last == 'unique':
@@ -2276,9 +2326,13 @@ class Interp:
         if name.startswith('astropy.units'):
             if last == 'Quantity' and args:
                 x = self._as_arr(args[0])
-                if len(args) > 1 and isinstance(x, Arr):
-                    uu = self._as_arr(args[1])
+                un_ = args[1] if len(args) > 1 else kw.get('unit')
+                if un_ is not None and isinstance(x, Arr):
+                    uu = self._as_arr(un_)
                     if isinstance(uu, Arr):
+                        if x.unit is not None and x.unit != num(1):
+                            self._unit_kind_check(x, uu, e, mod, 'Quantity(quantity, unit)')
+                            return x.with_(unit=uu.poly)          # a quantity given another unit is converted: the same physical value
                         return Arr(x.dims, x.poly * uu.poly, x.mask, uu.poly)
                 return x
             if last in ('spectral', 'spectral_density'):
@@ -2438,6 +2492,11 @@ class Interp:
                 d = list(recv.dims)
                 d[args[0]], d[args[1]] = d[args[1]], d[args[0]]
                 return recv.with_(dims=tuple(d))
+            if name == 'transpose' and not kw and (not args or (len(args) == recv.ndim and sorted(args) == list(range(recv.ndim)))):
+                perm_ = list(args) if args else list(range(recv.ndim))[::-1]
+                return recv.with_(dims=tuple(recv.dims[k_] for k_ in perm_))
+            if name in ('clip', 'take'):
+                return self.libcall('numpy.' + name, [recv] + args, kw, e, mod)          # x.clip(lo, hi) is np.clip(x, lo, hi)
             if name == 'searchsorted':
                 return self.libcall('numpy.searchsorted', [recv] + args, kw, e, mod)
             if name == 'is_equivalent':
@@ -2867,6 +2926,21 @@ def _merge_mask(a, b):
     return Unk('two different pending masks')
 
 
+def _align_primed(a, b):
+    """An axis labelled d aligned by position with the primed copy d' of the same axis (the query axis of an outer product over d): the operand runs over
+    that position, so its elements are those of d'."""
+    if not (isinstance(a, Arr) and isinstance(b, Arr)) or not a.dims or not b.dims:
+        return a, b
+    for k_ in range(1, min(len(a.dims), len(b.dims)) + 1):
+        x, y = a.dims[-k_], b.dims[-k_]
+        if x and y and x != y:
+            if y == x + "'" and y not in a.dims:
+                a = a.with_(dims=tuple(y if d_ == x else d_ for d_ in a.dims), poly=alg.relabel(a.poly, x, y), mask=None if a.mask is None else alg.relabel(a.mask, x, y))
+            elif x == y + "'" and x not in b.dims:
+                b = b.with_(dims=tuple(x if d_ == y else d_ for d_ in b.dims), poly=alg.relabel(b.poly, y, x), mask=None if b.mask is None else alg.relabel(b.mask, y, x))
+    return a, b
+
+
 def bdims(a, b):
     n = max(len(a), len(b))
     a = (None,) * (n - len(a)) + tuple(a)
@@ -2889,6 +2963,12 @@ def _len_label(p):
         if c == 1 and len(m) == 1 and m[0][1] == 1 and m[0][0][0] == 'fn' and m[0][0][1] == 'len':
             return m[0][0][2][1]
     return None
+
+
+def _full_slice(w, node):
+    if isinstance(w, _SliceVal):
+        return w.lo is None and w.hi is None and w.step is None
+    return isinstance(w, ast.Slice) and w.lower is None and w.upper is None and w.step is None
 
 
 def _index_offset(p, lab):
